@@ -16,8 +16,20 @@ SortVerdict(r) ==
       b == IF "named" \in DOMAIN r THEN SortJudge(r.args, r.cmp, r.named) ELSE "ok" IN
   IF a \notin {"ok", "unspec"} THEN a ELSE IF b \notin {"ok", "unspec"} THEN "named invocation: " \o b
   ELSE IF a = "unspec" \/ b = "unspec" THEN "unspec" ELSE "ok"
+\* stddev of two or more numbers: judged relationally by Stddev.tla (natural-number arithmetic over the digits the
+\* harness recorded); everything else about stddev (arity, kinds) stays with Bif!BifApply
+SD == INSTANCE Stddev
+StddevJudged(r) == LET vs == ListArg(r.args) IN
+  r.fn = "stddev" /\ Len(vs) >= 2 /\ \A j \in 1..Len(vs) : vs[j].k = "num" /\ vs[j].fin
+StddevVerdict(r) ==
+  LET vs == ListArg(r.args)
+      a == IF r.pos.k = "panic" THEN "the built-in panicked" ELSE SD!Judge(vs, r.pos)
+      b == IF "named" \in DOMAIN r THEN (IF r.named.k = "panic" THEN "the built-in panicked" ELSE SD!Judge(vs, r.named)) ELSE "ok" IN
+  IF a \notin {"ok", "unspec"} THEN a ELSE IF b \notin {"ok", "unspec"} THEN "named invocation: " \o b
+  ELSE IF a = "unspec" \/ b = "unspec" THEN "unspec" ELSE "ok"
 Verdict(r) ==
   IF r.fn = "sort" THEN SortVerdict(r) ELSE
+  IF StddevJudged(r) THEN StddevVerdict(r) ELSE
   LET want == IF "re" \in DOMAIN r THEN BifApplyRe(r.fn, r.args, r.re) ELSE BifApply(r.fn, r.args) IN
   IF r.pos.k = "panic" \/ ("named" \in DOMAIN r /\ r.named.k = "panic") THEN "the built-in panicked"
   ELSE IF IsU(want) THEN (IF "named" \in DOMAIN r /\ r.named # r.pos THEN "named and positional invocation differ" ELSE "unspec")
